@@ -43,7 +43,12 @@ Definition C17_full_statement : Prop :=
    annotations, closed + linkable) /\ spec_names ("all named from the entity name": the exact status values and
    numbers, the query service's six messages, command services and their methods' messages, publish and upsert
    topics with their methods and messages) /\ spec_query_settings (the responses of Get / List / Events incl.
-   "events in get"; the default status filters on State.status) *)
+   "events in get"; the default status filters on State.status)
+   /\ spec_list_path /\ spec_list_request (round 4: List is scoped by the declared shard keys - its path
+   parameters and its request fields are the key-typed keys flagged shardKey, primary or not, in declaration
+   order; each key field of the List request is a field of the Get and of the Events request)
+   /\ spec_field_types (round 4: every property of Keys / Data is the declared field: name, type read off the
+   declaration, repeated, primary / tenant / foreign key) *)
 Theorem C17_full : C17_full_statement.
 Proof. intros e Hq. split; [exact (full_all_clauses e Hq)|exact (reserved_rejected e Hq)]. Qed.
 Print Assumptions C17_full.
